@@ -541,6 +541,9 @@ def run(ctx, report):
 
 
 MUTANTS = [
+    ('nocheck-misspelt', 'miasmx/expression/expression_eval_abstract.py', "    op_size_no_check = ['<<<', '>>>', 'a>>', '>>', '<<',", "    op_size_no_check = ['<<<', '>>>', 'a<<', '>>', '<<',", 'C06.D1'),
+    ('rcl-narrow-shift', 'miasmx/expression/expression_eval_abstract.py', "        r = int(r)\n        tmpa = (int(args[0])<<1) | (int(args[2])&1)\n        rez = (tmpa<<r) | (tmpa >> (op_size+1-r))", "        r = int(r)\n        tmpa = int(args[0]<<1) | (int(args[2])&1)\n        rez = (tmpa<<r) | (tmpa >> (op_size+1-r))", 'C06.D5'),
+    ('rol-of-fullwidth', 'miasmx/arch/ia32_sem.py', "    e.append(ExprAff(of, ExprOp(\"^\", get_op_msb(c), new_cf[0:1])))\n    e.append(ExprAff(a, c))\n    return e\n\ndef l_ror", "    e.append(ExprAff(of, ExprOp(\"^\", get_op_msb(c), new_cf)))\n    e.append(ExprAff(a, c))\n    return e\n\ndef l_ror", 'C06.D1'),
     ('no-xor', 'miasmx/expression/expression_eval_abstract.py', "               '^':eval_op_xor,\n", "", 'C06.D'),
     ('minus-noarity', 'miasmx/expression/expression_eval_abstract.py',
      "        if len(args) == 2:\n            ret_value = args[0] - args[1]\n        elif len(args) == 1:\n            ret_value = -args[0]\n        else:\n            raise ValueError('deprecated n aire arguments for op -')\n",
@@ -556,7 +559,7 @@ MUTANTS = [
     ('rotr-mod', 'miasmx/expression/expression_eval_abstract.py', "    def eval_op_rotr(self, args, op_size, cast_int):\n        r = args[1]&0x1F\n        r %=op_size\n", "    def eval_op_rotr(self, args, op_size, cast_int):\n        r = args[1]&0x1F\n        r %=op_size+1\n", 'C06.D5'),
     ('rotl-compl', 'miasmx/expression/expression_eval_abstract.py', "((args[0] & mymaxuint[op_size]) >> (op_size-r))", "((args[0] & mymaxuint[op_size]) >> (op_size-r-1))", 'C06.D5'),
     ('or-is-xor', 'miasmx/expression/expression_eval_abstract.py', "            ret_value = ret_value | a\n", "            ret_value = ret_value ^ a\n", 'C06.D5'),
-    ('rcl-dir', 'miasmx/expression/expression_eval_abstract.py', "        rez = (tmpa<<r) | (tmpa >> (op_size+uint64(1)-r))", "        rez = (tmpa>>r) | (tmpa << (op_size+uint64(1)-r))", 'C06.D5'),
+    ('rcl-dir', 'miasmx/expression/expression_eval_abstract.py', "        rez = (tmpa<<r) | (tmpa >> (op_size+1-r))", "        rez = (tmpa>>r) | (tmpa << (op_size+1-r))", 'C06.D5'),
     ('mulhi-shift', 'miasmx/expression/expression_eval_abstract.py', "        ret_value =  (a*b) >> uint64(op_size)", "        ret_value =  (a*b) >> uint64(op_size-1)", 'C06.D5'),
     ('parity-wide', 'miasmx/expression/expression_eval_abstract.py', "    def parity(self, a):\n        tmp = (a)&0xFF", "    def parity(self, a):\n        tmp = (a)&0xFFFF", 'C06.D5'),
     ('no-bool', 'miasmx/tools/modint.py', "    def __bool__(self):\n        return self.arg != 0\n    __nonzero__ = __bool__\n", "", 'C06.D3'),
